@@ -8,6 +8,7 @@ import (
 	"context"
 	"fmt"
 	"io"
+	"sync"
 	"sync/atomic"
 
 	"github.com/cespare/xxhash/v2"
@@ -181,11 +182,19 @@ func (s StoreSpec) frames() []*storepb.SeriesResponse {
 	return out
 }
 
+func (c *fakeStore) lastCtx() context.Context {
+	c.ctxMu.Lock()
+	defer c.ctxMu.Unlock()
+	return c.ctx
+}
+
 type fakeStore struct {
 	name  string
 	spec  StoreSpec
 	asked atomic.Int32
 	cancelled atomic.Bool // the call's context was cancelled while the stream was still being read
+	ctxMu     sync.Mutex
+	ctx       context.Context // context of the last Series call
 }
 
 func (c *fakeStore) LabelSets() []labels.Labels         { return nil }
@@ -203,6 +212,9 @@ func (c *fakeStore) errorf(what string) error {
 
 func (c *fakeStore) Series(ctx context.Context, _ *storepb.SeriesRequest, _ ...grpc.CallOption) (storepb.Store_SeriesClient, error) {
 	c.asked.Add(1)
+	c.ctxMu.Lock()
+	c.ctx = ctx
+	c.ctxMu.Unlock()
 	if c.spec.Fault == "open" {
 		return nil, c.errorf("open")
 	}
